@@ -22,6 +22,7 @@ import (
 	"sort"
 	"strings"
 	"sync"
+	"time"
 
 	"github.com/ozontech/seq-db/seq"
 	"github.com/ozontech/seq-db/zstd"
@@ -625,7 +626,10 @@ func runChild(root string, spec searchSpec, fresh bool) (*runObs, error) {
 			return nil, fmt.Errorf("search: %w", err)
 		}
 	}
-	if o.fetch, err = call(st, "c19.fetch", childReq{Spec: spec, Wait: true, TimeoutMs: 20000}); err != nil {
+	// wait for Done by watching <id>.info from this (untraced) process: polling FetchSearchResult in the
+	// child would open and close descriptors concurrently with the protocol's own system calls
+	waitDone(root+"/async/"+spec.ID+".info", 20*time.Second, st)
+	if o.fetch, err = call(st, "c19.fetch", childReq{Spec: spec}); err != nil {
 		return nil, fmt.Errorf("fetch: %w", err)
 	}
 	if fresh {
@@ -647,6 +651,42 @@ func runChild(root string, spec searchSpec, fresh bool) (*runObs, error) {
 	o.tr = tr
 	o.final = readAsyncDir(root + "/async")
 	return o, nil
+}
+
+// waitDone returns when the request file says Done, cannot be parsed (the request will not be found),
+// the child is gone, or the time is up.
+func waitDone(path string, limit time.Duration, st *storectl.Store) {
+	deadline := time.Now().Add(limit)
+	for time.Now().Before(deadline) {
+		b, err := os.ReadFile(path)
+		if err != nil {
+			return
+		}
+		var inf struct{ Done bool }
+		if json.Unmarshal(b, &inf) != nil || inf.Done {
+			return
+		}
+		time.Sleep(time.Millisecond)
+	}
+}
+
+// shapeOK: the projected operations are a sequence of complete atomic writes (optionally after mkdir)
+func shapeOK(ops []pop) bool {
+	i := 0
+	if len(ops) > 0 && ops[0].coq == "OMkdir" {
+		i = 1
+	}
+	if (len(ops)-i)%5 != 0 {
+		return false
+	}
+	for ; i < len(ops); i += 5 {
+		ok := strings.HasPrefix(ops[i].coq, "OCreate ") && strings.HasPrefix(ops[i+1].coq, "OWrite ") &&
+			strings.HasPrefix(ops[i+2].coq, "OFsync ") && strings.HasPrefix(ops[i+3].coq, "ORename ") && ops[i+4].coq == "OFsyncDir"
+		if !ok {
+			return false
+		}
+	}
+	return true
 }
 
 func buildCorpus(root string, w *world) error {
@@ -713,7 +753,24 @@ func runWorld(seed uint64, idx int, tier string, only [][]crashPoint) (res *resu
 	if err := buildCorpus(root, w); err != nil {
 		panic(fmt.Sprintf("corpus: %v", err))
 	}
-	run0, err := runChild(root, w.Spec, true)
+	// strace orders the completions of different threads only approximately; an observation whose
+	// operations are not a sequence of complete atomic writes is taken again (a real defect shows again)
+	var run0 *runObs
+	for attempt := 0; attempt < 3; attempt++ {
+		os.RemoveAll(root + "/async")
+		run0, err = runChild(root, w.Spec, true)
+		if err != nil {
+			break
+		}
+		pp := &proj{id: w.Spec.ID, rank: map[string]int{}, per: map[string]string{}, spec: w.Spec}
+		for i, f := range run0.per.PerFrac {
+			pp.rank[f.Name] = i
+		}
+		if o, _, bad := pp.ops(run0.tr); shapeOK(o) && len(bad) == 0 {
+			break
+		}
+		res.counts = append(res.counts, "retry:run")
+	}
 	if err != nil {
 		if died(err) {
 			res.viols = append(res.viols, violation{vfp("died-run"), "the store process failed during an asynchronous search: " + err.Error(), base()})
@@ -850,18 +907,31 @@ func runWorld(seed uint64, idx int, tier string, only [][]crashPoint) (res *resu
 				break
 			}
 			st = crashState(tr, ops, cp)
-			dir = fmt.Sprintf("%s/c%d_%d", top, ci, li)
-			if err := st.Materialize(dir); err != nil {
-				panic(err)
+			var bad []string
+			var nops []pop
+			for attempt := 0; attempt < 3; attempt++ {
+				dir = fmt.Sprintf("%s/c%d_%d_%d", top, ci, li, attempt)
+				if err := st.Materialize(dir); err != nil {
+					panic(err)
+				}
+				os.MkdirAll(dir+"/data", 0o755)
+				obs, err = runChild(dir, w.Spec, false)
+				if err != nil {
+					break
+				}
+				nops, _, bad = p.ops(obs.tr)
+				if shapeOK(nops) && len(bad) == 0 {
+					break
+				}
+				res.counts = append(res.counts, "retry:restart")
+				if attempt < 2 {
+					os.RemoveAll(dir)
+				}
 			}
-			os.MkdirAll(dir+"/data", 0o755)
-			obs, err = runChild(dir, w.Spec, false)
 			if err != nil {
 				break
 			}
-			tr = obs.tr
-			var bad []string
-			ops, _, bad = p.ops(tr)
+			tr, ops = obs.tr, nops
 			for _, b := range bad {
 				res.viols = append(res.viols, violation{vfp("unexpected-op"), "operation outside the persistence protocol in the async-search directory: " + b, base()})
 			}
